@@ -9,7 +9,10 @@
    makes of item["data"].  Specifications (DictListProofs.v): [mirrors enc t j]
    (relational: the dict [j] has the entries the property asks for and its
    "children" mirror the children), [iso t t'] (same tree up to node identity,
-   kind and meta), [sibuniq_f] (C03: no two siblings with one data_id). *)
+   kind and meta), [sibuniq_f] (C03: no two siblings with one data_id).
+   [sm_ok enc sm]: the serialisation mapper sets "data" to [enc] of the node,
+   leaves "data_id" alone and does not invent "children" or "node_id" entries
+   (it may add any other entry).  [i_hash = -1] stands for unhashable data. *)
 From Coq Require Import List ZArith Bool.
 From NT Require Import Sx Rose DictList DictListProofs CaseC14 CaseC14Facts.
 From NTGen Require Import Generated.
@@ -214,6 +217,16 @@ Example C14_dropping_mapper_loses_ids :
   tree_from_dict (dd_raw ex_raw) 0 (to_dict_list (sm_of (SMnew [(1%Z, JStr [97%Z])] false)) [T 1 (ex_a (DInt 0)) []]) =
   inl [T 1 (I (-1) 1 11 true [97%Z] (DInt 11) None []) []].
 Proof. exact ex_drop_loses_ids. Qed.
+
+Example C14_ex_node_ids :
+  tree_from_dict (dd_raw ex_raw) 0
+    [JDict [(k_data, JStr [97%Z]); (k_node_id, JInt 5); (k_children, JList [JDict [(k_data, JStr [98%Z]); (k_node_id, JStr [49%Z; 50%Z])]])]] =
+  inl [T 1 (I (-1) 1 11 true [97%Z] (DInt 11) None [(k_node_id, A 5)])
+         [T 2 (I (-1) 2 22 true [98%Z] (DInt 22) None [(k_node_id, A 12)]) []]] /\
+  tree_from_dict (dd_raw ex_raw) 0
+    [JDict [(k_data, JStr [97%Z]); (k_node_id, JInt 5)]; JDict [(k_data, JStr [98%Z]); (k_node_id, JInt 5); (k_data_id, JList [])]] =
+  inr E_ASSERT.
+Proof. exact ex_node_ids. Qed.
 
 Example C14_roundtrip_needs_sibuniq :
   tree_from_dict (dd_raw ex_raw) 0 (to_dict_list sm_none [T 1 (ex_a (DInt 11)) []; T 2 (ex_a (DInt 11)) []]) = inr E_UNIQUE.
